@@ -100,8 +100,8 @@ def check_shape(isd, doc, res, source_ids, seen_objects):
         if ck not in RUBY_PATTERNS:
           res.fail("shape:content-model:ruby", "%s has %r" % (eid, ck))
       elif k == "rtc":
-        inner = ck[1:-1] if len(ck) > 2 and ck[0] == "rp" and ck[-1] == "rp" else ck
-        if not inner or any(x != "rt" for x in inner):
+        inner = ck[1:-1] if len(ck) >= 2 and ck[0] == "rp" and ck[-1] == "rp" else ck
+        if any(x != "rt" for x in inner) or not ck:
           res.fail("shape:content-model:rtc", "%s has %r" % (eid, ck))
       elif k in CONTENT_MODEL:
         bad = [x for x in ck if x not in CONTENT_MODEL[k]]
@@ -139,13 +139,19 @@ def check_shape(isd, doc, res, source_ids, seen_objects):
 def check_lwsp(sn, g, res):
   """white-space rules of one region: reference leaves (source text) vs ISD leaves"""
   kinds = {eid: n["kind"] for eid, (n, _c) in sn.elements.items()}
-  src = ref_lwsp.split_contexts([(l.kind, l.text, l.chain, l.preserve) for l in sn.leaves], kinds)
+  # a ruby that does not keep all its parts in the snapshot may be presented as spans without the rb / rbc levels (vt/obs.py)
+  strip, _rubies, _optional = obs.ruby_flags(sn)
+  def chain(c):
+    return tuple(i for i in c if i not in strip)
+  src = ref_lwsp.split_contexts([(l.kind, l.text, chain(l.chain), l.preserve) for l in sn.leaves], kinds)
   gkinds = {eid: obs.kind_of(e) for eid, e in g.elements.items()}
-  out = ref_lwsp.split_contexts([(k, x, c, None) for (k, x, c) in g.leaves], gkinds)
+  out = ref_lwsp.split_contexts([(k, x, chain(c), None) for (k, x, c) in g.leaves], gkinds)
   for ctx, leaves in src.items():
     if ctx is None or ctx[0] == "rp":
       continue
     got = out.get(ctx, [])
+    if not got:
+      continue        # the whole paragraph / annotation is absent from the snapshot: presence is C01's business, not a white-space matter
     texts = [l for l in leaves if l[0] == "text"]
     if all(not l[3] for l in texts):
       want = [ref_lwsp.collapse(x) for x in ref_lwsp.segments(leaves)]
@@ -278,7 +284,17 @@ def cases_mixed(tier):
                    st.lists(st.fractions(0, 12, max_denominator=997), max_size=1), st.lists(pick, min_size=1, max_size=3))
 
 
+RUBY_TIMED = gen_model.profile(style_density=(0, 3), max_nodes=24, br_styles=False, ruby_timed=True, ruby_full=True)
+
+
+def cases_ruby(tier):
+  return st.builds(lambda spec, extra: {"spec": spec, "extra": extra}, gen_model.docspecs(RUBY_TIMED),
+                   st.lists(st.fractions(0, 12, max_denominator=997), max_size=1))
+
+
 PARTS = {
+  # ruby parts with their own timing / display / region: snapshots in which a ruby keeps only some of its parts
+  "ruby_timed": Part("ruby_timed", check, strategy=cases_ruby, n=(240, 16000), shrinker=SHRINK, required_labels=("kind:ruby", "kind:rtc")),
   "mixed_space": Part("mixed_space", check, strategy=cases_mixed, n=(240, 16000), shrinker=SHRINK,
                       required_labels=("lwsp:default-text-with-leading-space-after-preserved-white-space",)),
   "main": Part("main", check, strategy=cases, n=(400, 64000), shrinker=SHRINK,
